@@ -32,4 +32,8 @@ CHECKS["C05"] = dict(
    text="Held on every public solver class found by walking exactpack.solvers (each built with random admissible parameters, N in {1,2,3,17,1000}, five container types, permuted/duplicated points): record count/order, positions first and unmodified, caller's array untouched, standard names, container equivalence, exact CSV round trip, ValueError for unknown/missing constructor parameters. Exact comparisons; the universal part is an icontract postcondition on ExactSolver.__call__. Sampling over inputs, exhaustive over classes.",
    design_ref="5/C05", note=_T + "; alias list for standard names in rtm/props/c05.py; plotting is not exercised",
    technique="online contract (icontract postcondition) at the public call boundary + differential container driver")
+CHECKS["C01"] = dict(
+   text="Held on the sampled (parameters, r, t) probes: normalised residuals of mass, momentum and energy (with the documented heat-flux term) from finite differences of fields obtained through the public call, for all twenty Coggeshall solutions, Noh (both sides), Noh2/Noh2Cog, EHEP regions I-V, fans of both Riemann solvers, Sedov interior (outside the solver's truncated core) and Guderley before/after reflection. Sampling, not proof; known genuine violations (Cog13/17/20 energy) are listed in known_findings.json.",
+   design_ref="5/C01", note=_T + "; derivative error bars by Richardson; inconclusive probes are not counted as held",
+   technique="PDE-residual monitor over recorded public calls (finite-difference oracle with error bars)")
 NOT_YET = {}
